@@ -226,6 +226,24 @@ def check_call(ctx, static_file, audit, base, files, real_root, rname, root, nam
         norm = _safe(os.path.normpath, os.path.join(real_root, name.strip('/\\')))
         if norm.startswith(inside) and os.path.isfile(norm) and os.access(norm, os.R_OK):
             ctx.count('readable_file_inside_root_answered_403(not a verdict)')
+    if code == 200 and len(str(name)) % 3 == 0:
+        # the same file offered for download under another name (a string that also names a file outside the root): what is opened is
+        # still the requested file, the other name only goes into the Content-Disposition header
+        for dl in ('top-secret.txt', os.path.join(base, 'top-secret.txt'), '../www2/a.txt'):
+            with audit:
+                try:
+                    res3 = static_file(name, root, download=dl)
+                except Exception as e:  # noqa
+                    ctx.violation(f'static_file-raises-{type(e).__name__}', f'static_file({name!r}, root={rname}, download={dl!r}) raised {e!r}', wit)
+                    continue
+            ctx.count('served_for_download_under_another_name')
+            body3 = getattr(res3, 'body', None)
+            data3 = body3.read() if hasattr(body3, 'read') else b''
+            if hasattr(body3, 'close'):
+                body3.close()
+            outside = [p for p in audit.paths if isinstance(p, (str, bytes)) and not os.path.realpath(os.fsdecode(p)).startswith(inside)]
+            if outside or (res3.status_code == 200 and data3 != data):
+                ctx.violation('open-outside-root', f'static_file({name!r}, root={rname}:{root!r}, download={dl!r}) opened {audit.paths!r} and served {data3[:30]!r}', wit)
     if code in (403, 404):
         # the same name asked for conditionally (a date in the future, a date in the past) and as a range: headers of the
         # request may turn a 200 into a 304 / 206, they never turn a refusal into anything else
